@@ -356,6 +356,14 @@ def main(argv=None):
         print(f'HARNESS-ERROR property={prop} cannot import check or library')
         return 2
 
+    try:
+        from vlib import oracle
+        oracle.selftest()
+    except Exception:  # noqa: BLE001
+        traceback.print_exc()
+        print(f'HARNESS-ERROR property={prop} reference model self-test failed')
+        return 2
+
     if args.replay:
         try:
             ok, ctx = run_replay(module, args.replay)
